@@ -23,7 +23,7 @@ CHECKS = {
   note="Trusted: simgo rewrites are semantics preserving (repo suite passes on the instrumented copy), zsimrt.FS models the os calls the library makes (ReadFile/Open/Stat/Lstat/Getwd/UserHomeDir/Abs/EvalSymlinks/Environ), step budgets are far above any legitimate load (setup measures the fault-free maximum).", ref="3/C01"),
 "C02": dict(level="exploration", tech="deterministic simulation: seeded control of all 132 map-range sites (sorted/reverse/rotation/permutation per site), load histories in one process; differential oracle across schedules",
   text="Each generated layout is loaded under several seeded iteration-order schedules of every map range in the library and after a drawn history of other loads; outcomes, projects (DeepEqual) and YAML/JSON bytes must agree. Dependence on earlier loads in the process is checked both ways: canary layouts loaded while the process is pristine and re-loaded later, and a sample of evaluations repeated in a fresh child process; one pre-parsed ConfigDetails is loaded twice. Order-dependent sites are isolated by delta-debugging the schedule. Sampling.",
-  note="Trusted: simgo's R1 rewrite (checked by the repo suite on the instrumented copy); map order inside dependencies is not controlled (affects error text only, which is not compared).", ref="3/C02"),
+  note="Trusted: simgo's R1 rewrite (checked by the repo suite on the instrumented copy); map order inside dependencies is not controlled: it affects error text (not compared) and, as found late, mapstructure's case-insensitive key matching for keys that differ only in case, which the generators do not produce (DESIGN section 6).", ref="3/C02"),
 "C05": dict(level="exploration", tech="deterministic simulation: all visit orders of the services map during extends resolution pinned one by one + seeded order of every other map range + simulated disk with missing-base faults; refinement against a reference resolver",
   text="Generated extends chains (same file, other file, other directory, cycles) are loaded once per permutation of the services-map visit order; every schedule must give the same project, which must equal a small reference model of base-then-local on a fixed attribute vocabulary; missing bases and cycles must be errors.",
   note="Trusted: the 60-line reference resolver; vocabulary restricted to attributes whose merge rule is stated in the property.", ref="3/C05"),
